@@ -1,9 +1,18 @@
 ----------------------------- MODULE BSPContract -----------------------------
 (* The C01 statement as a total monitor over API-observable events (plus the   *)
-(* Dropped / Ignored / FFEarly hook events that identify exactly which spans   *)
-(* were dropped because the queue was full, ignored because Shutdown had       *)
-(* begun, and which ForceFlush calls took the "already shut down" exit).       *)
+(* hook events that identify exactly which spans were dropped because the      *)
+(* queue was full (Dropped), ignored because Shutdown had begun (Ignored),     *)
+(* abandoned by a blocking enqueue that saw the processor shutting down        *)
+(* (Abandoned), which ForceFlush calls took the "already shut down" exit       *)
+(* (FFEarly) and which ones got their marker into the queue (FFMarker)).       *)
 (* Every event is always accepted; broken clauses are collected by Judge.      *)
+(*                                                                             *)
+(* What a call promises depends on how it returns: the delivery clause is for  *)
+(* calls that return WITHOUT error only; a call that returns an error (its     *)
+(* context expired, its own export failed) promises nothing about delivery.    *)
+(* All other clauses are unconditional: no span twice (a failed export is not  *)
+(* retried), bounded batches, exclusive exporter, nothing exported after       *)
+(* Shutdown has returned -- with or without error.                             *)
 EXTENDS Naturals, Sequences, FiniteSets, TLC
 
 Fresh(cfg) == [cfg |-> cfg,
@@ -11,39 +20,55 @@ Fresh(cfg) == [cfg |-> cfg,
                handed |-> {},       \* ids handed to the exporter
                dropped |-> {},      \* ids dropped on a full queue (counted)
                ignored |-> {},      \* ids that found the processor stopped
+               abandoned |-> {},    \* ids whose blocking enqueue gave up because the processor is shutting down
                raced |-> {},        \* ids whose End returned after some Shutdown call had begun
                maxTotal |-> 0,      \* largest value of the dropped counter seen
                inflight |-> FALSE,  \* an ExportSpans call is running
                snap |-> <<>>,       \* proc -> ended at the time of its ForceFlush / Shutdown call
                early |-> {},        \* ForceFlush calls that took the stopped exit
+               marker |-> {},       \* ForceFlush calls whose marker was enqueued
+               ctxdone |-> {},      \* calls whose context is done (cancelled by the harness / deadline passed)
+               dlcaller |-> FALSE,  \* some ForceFlush was called with a ctx that carries a deadline
                sdCalled |-> FALSE,  \* some Shutdown call has begun
                sdRet |-> FALSE,     \* some Shutdown call has returned nil
+               sdRetErr |-> FALSE,  \* some Shutdown call whose ctx was done has returned an error
                expShut |-> FALSE]   \* exporter.Shutdown was called
 
 Put(f, k, v) == [x \in (DOMAIN f) \cup {k} |-> IF x = k THEN v ELSE f[x]]
 SeqToSet(s) == {s[i] : i \in 1..Len(s)}
 (* cfg.kind = "simple" (SimpleSpanProcessor, no hooks): a span whose End returned after a Shutdown call had
-   begun may have found the exporter gone and is legitimately ignored *)
+   begun may have found the exporter gone and is legitimately ignored.  Abandoned spans are NOT excused:
+   like a span enqueued after the drain (D4) they are lost silently; their End returned after a Shutdown
+   call had begun, so they are owed only to calls made later (classified as D1 / D4 there). *)
 Missing(m, S) == (((S \ m.handed) \ m.dropped) \ m.ignored) \ (IF m.cfg.kind = "simple" THEN m.raced ELSE {})
+(* the drain started by a Shutdown whose ctx expired is still running in the background *)
+DrainOutlives(m) == m.sdRetErr /\ ~m.expShut
 
 (* Step(m, e) = <<next monitor state, set of violated clauses (records)>> *)
 Step(m, e) ==
   CASE e.ev = "Call" /\ e.op = "End" -> <<m, {}>>
     [] e.ev = "Ret" /\ e.op = "End" -> <<[m EXCEPT !.ended = @ \cup {e.id},
                                                    !.raced = IF m.sdCalled THEN @ \cup {e.id} ELSE @], {}>>
-    [] e.ev = "Call" /\ e.op = "FF" -> <<[m EXCEPT !.snap = Put(@, e.proc, m.ended)], {}>>
+    [] e.ev = "Call" /\ e.op = "FF" -> <<[m EXCEPT !.snap = Put(@, e.proc, m.ended),
+                                                   !.dlcaller = (@ \/ e.ctx = "deadline")], {}>>
     [] e.ev = "Call" /\ e.op = "SD" -> <<[m EXCEPT !.snap = Put(@, e.proc, m.ended), !.sdCalled = TRUE], {}>>
+    [] e.ev = "CtxDone" -> <<[m EXCEPT !.ctxdone = @ \cup {e.proc}], {}>>
     [] e.ev = "FFEarly" -> <<[m EXCEPT !.early = @ \cup {e.proc}],
                              IF m.sdCalled THEN {} ELSE {[kind |-> "early-exit-without-shutdown", proc |-> e.proc]}>>
+    [] e.ev = "FFMarker" -> <<[m EXCEPT !.marker = @ \cup {e.proc}], {}>>
     [] e.ev = "Ret" /\ e.op = "FF" ->
          <<m, IF e.err = "" /\ Missing(m, m.snap[e.proc]) # {}
-              THEN {[kind |-> IF e.proc \in m.early THEN "flush-missed-during-shutdown" ELSE "flush-missed",
+              THEN {[kind |-> IF e.proc \in m.early THEN "flush-missed-during-shutdown"
+                              ELSE IF e.proc \in m.ctxdone /\ e.proc \notin m.marker THEN "flush-missed-ctx-done-no-marker"
+                              ELSE "flush-missed",
                      proc |-> e.proc, missing |-> Missing(m, m.snap[e.proc])]}
               ELSE {}>>
     [] e.ev = "Ret" /\ e.op = "SD" ->
-         <<[m EXCEPT !.sdRet = (@ \/ e.err = "")],
+         <<[m EXCEPT !.sdRet = (@ \/ e.err = ""), !.sdRetErr = (@ \/ (e.err # "" /\ e.proc \in m.ctxdone))],
            IF e.err = "" /\ Missing(m, m.snap[e.proc]) # {}
-           THEN {[kind |-> IF Missing(m, m.snap[e.proc]) \subseteq m.raced THEN "shutdown-missed-raced" ELSE "shutdown-missed",
+           THEN {[kind |-> IF DrainOutlives(m) THEN "shutdown-missed-drain-outlives-expired-shutdown"
+                           ELSE IF Missing(m, m.snap[e.proc]) \subseteq m.raced THEN "shutdown-missed-raced"
+                           ELSE "shutdown-missed",
                   proc |-> e.proc, missing |-> Missing(m, m.snap[e.proc])]} ELSE {}>>
     [] e.ev = "ExportBegin" ->
          LET ids == SeqToSet(e.ids) IN
@@ -52,8 +77,14 @@ Step(m, e) ==
               THEN {[kind |-> "exported-twice", ids |-> (ids \cap m.handed)]} ELSE {})
            \cup (IF Len(e.ids) > m.cfg.maxbatch THEN {[kind |-> "batch-too-large", n |-> Len(e.ids)]} ELSE {})
            \cup (IF m.inflight THEN {[kind |-> "concurrent-export"]} ELSE {})
-           \cup (IF m.sdRet \/ m.expShut THEN {[kind |-> "export-after-shutdown"]} ELSE {})
-           \cup (IF ids \cap (m.dropped \cup m.ignored) # {} THEN {[kind |-> "exported-a-dropped-span"]} ELSE {})>>
+           \cup (IF m.expShut THEN {[kind |-> "export-after-shutdown"]}
+                 ELSE IF DrainOutlives(m) THEN {[kind |-> "export-after-expired-shutdown"]}
+                 ELSE IF m.sdRet THEN {[kind |-> "export-after-shutdown"]} ELSE {})
+           \cup (IF ids \cap (m.dropped \cup m.ignored \cup m.abandoned) # {} THEN {[kind |-> "exported-a-dropped-span"]} ELSE {})
+           \* ExportTimeout > 0 <=> the exporter's ctx carries a deadline (a ForceFlush export inherits its caller's)
+           \cup (IF m.cfg.kind = "batch" /\ m.cfg.exportTimeout /\ ~e.deadline THEN {[kind |-> "export-without-deadline"]} ELSE {})
+           \cup (IF m.cfg.kind = "batch" /\ ~m.cfg.exportTimeout /\ e.deadline /\ ~m.dlcaller
+                   THEN {[kind |-> "export-with-unexpected-deadline"]} ELSE {})>>
     [] e.ev = "ExportEnd" -> <<[m EXCEPT !.inflight = FALSE], {}>>
     [] e.ev = "ExporterShutdown" ->
          <<[m EXCEPT !.expShut = TRUE],
@@ -65,8 +96,15 @@ Step(m, e) ==
     [] e.ev = "Ignored" ->
          <<[m EXCEPT !.ignored = @ \cup {e.id}],
            IF m.sdCalled THEN {} ELSE {[kind |-> "ignored-without-shutdown", id |-> e.id]}>>
+    [] e.ev = "Abandoned" ->
+         <<[m EXCEPT !.abandoned = @ \cup {e.id}],
+           (IF m.sdCalled THEN {} ELSE {[kind |-> "abandoned-without-shutdown", id |-> e.id]})
+           \cup (IF m.cfg.blocking THEN {} ELSE {[kind |-> "abandoned-in-drop-mode", id |-> e.id]})
+           \cup (IF e.id \in m.handed \cup m.dropped THEN {[kind |-> "abandoned-and-accounted", id |-> e.id]} ELSE {})>>
     [] e.ev = "EndScenario" ->
          <<m, IF e.quiescent /\ m.maxTotal # Cardinality(m.dropped)
               THEN {[kind |-> "dropped-miscounted", counter |-> m.maxTotal, drops |-> Cardinality(m.dropped)]} ELSE {}>>
+    \* the `exporting spans` debug line of the SDK: total_dropped as the processor reports it
+    [] e.ev = "Log" -> <<[m EXCEPT !.maxTotal = IF e.total > @ THEN e.total ELSE @], {}>>
     [] OTHER -> <<m, {}>>
 =============================================================================
